@@ -23,8 +23,8 @@ type env struct {
 	// soft fault: every command is answered with an error reply (what mr.SetError does; done by
 	// our own pre-hook because the hook also counts script commands)
 	faulty atomic.Bool
-	fence      // detector of commands re-sent by the go-redis client, see fence.go
-	wide  bool // schedule executions: one fence window per execution (opened by the body)
+	fence       // detector of commands re-sent by the go-redis client, see fence.go
+	wide   bool // schedule executions: one fence window per execution (opened by the body)
 }
 
 func (e *env) hook() {
